@@ -173,14 +173,15 @@ CLAIMED = {
     },
     "C12": {
         "design_ref": "DESIGN.md section 5 / C12",
-        "technique": "Coq soundness/completeness proofs of a model of the validators + a per-run TRANSLATOR (Python ast -> Coq step list of prepare_run/RunInfo.create/init_store) on whose regenerated term 'all checks precede all effects' is proved by computation + single-fault mutation correspondence",
-        "text": "validate_construct/validate_map accept only well-formed pipelines/requests and reject every listed fault class; a rejected map request has an "
-                "empty call log and (cleanup=False) an empty effect trace. The order of checks and file-system effects in prepare_run is re-extracted "
-                "from /repo's source on every run and the ordering theorem is re-proved on that term; the callee classification is validated by audit "
-                "hooks. Valid cases subjected to each single-fault mutation must raise, run no user function and leave the folder byte-identical. "
-                "Two recorded findings: Pipeline.run detects missing/surplus keywords only after user functions ran.",
-        "note": "Trusted: Coq kernel; hand-written validator models; translator + its Check/Effect/Pure classification table (dynamically validated); zip-fault "
-                "theorems under plain_specs; exception classes only checked by correspondence; scopes/renames/resources/type annotations not modelled.",
+        "technique": "Coq soundness/completeness proofs of a model of the validators (incl. exception classes, post-construction mutations) + a per-run TRANSLATOR (Python ast -> Coq step lists of prepare_run/RunInfo.create/init_store and of Pipeline.run's entry) on whose regenerated terms 'all checks precede all effects / the first user call' is proved by computation + single-fault mutation correspondence",
+        "text": "validate_construct/validate_map accept only well-formed pipelines/requests and reject every listed fault class with the exception class the code raises; "
+                "a pipeline made ill-formed after construction (member- or pipeline-level update_*/add/replace) is rejected at the mutation or at the next use; a rejected "
+                "request has an empty call log and (cleanup=False) an empty effect trace; Pipeline.run validates its keywords before the first user call (repaired: dc990ae); "
+                "validate_construct = Ok implies Pipe.wf_pipelineb, the precondition of the C02/C09/C10/C18 theorems. The order of checks and effects is re-extracted from "
+                "/repo's source on every run and the ordering theorems are re-proved on those terms; the callee classification is validated by audit hooks. Valid cases "
+                "subjected to each single-fault mutation must raise, run no user function and leave the folder byte-identical.",
+        "note": "Trusted: Coq kernel; hand-written validator models; translator + its Check/Effect/Pure classification table (dynamically validated); shape-error classes "
+                "inside map_shapes only by correspondence; scopes/resources/type annotations (C16) not modelled.",
     },
     "C16": {
         "design_ref": "DESIGN.md section 5 / C16",
